@@ -221,6 +221,30 @@ def explore(ctx, depth):
     for case, mr, tr in zip(cases, mresp, tracks):
         docrun.tie_import(ctx, case, mr, tree=True)
         check_tree(ctx, case, docrun.nontrivial(case), 'document', tr)
+    # (b2) texts outside the generator's grammar (a spine added by `*+`, `**` cells below the first line, blank lines, short lines, `*x`):
+    # the tree against the model (correspondence) and against the Lean tracker (theorems C02_tree / C02_import_succeeds quantify over every text)
+    rcases = docrun.raw_cases(ctx, [c.adoc for c in cases[:8 if depth == 'quick' else 80]])
+    mresp = docrun.model_exports(ctx, rcases, [[] for _ in rcases], tree=True)
+    tracks = ctx.driver.ask([{'op': 'doc.track', 'text': c.text} for c in rcases])
+    for case, mr, tr in zip(rcases, mresp, tracks):
+        docrun.tie_import(ctx, case, mr, tree=True)
+        kind = case.adoc['kind']
+        ctx.count('raw_tracker:%s:%s' % (kind, 'wf' if tr['wf'] else 'not-wf'))
+        if not tr['wf']:
+            continue
+        ctx.seen({'text': case.text, 'clause': 'raw text: lean tracker'}, True)
+        if case.doc is None:
+            if kind != 'exchange':
+                ctx.fail({'text': case.text, 'clause': 'raw text: import'}, 'a text without surplus cells and without *x does not import', impl=case.import_result)
+            continue
+        io = impl.doc_obs(case.doc, case.errors)
+        got = [[[n['parent'], n['hdr']] for n in st] for st in io['stages']]
+        lean = [[[n[0], n[1]] for n in st] for st in tr['skel']]
+        if got != lean:
+            k = next((i for i, (a, b) in enumerate(zip(got, lean)) if a != b), min(len(got), len(lean)))
+            ctx.fail({'text': case.text, 'clause': 'raw text: skeleton (Lean tracker)', 'first_differing_stage': k},
+                     'the imported tree does not have the skeleton of the spine-path tracker (stages / nodes / parent links / header nodes)',
+                     impl=got[k] if k < len(got) else len(got), expected=lean[k] if k < len(lean) else len(lean))
     # (c) literal cell text through the line reader, (d) surplus cells
     specials = ['"quoted"', '"open', 'a,b', 'a b', ' lead', 'trail ', 'señor', '日本', 'x"y', "it's", '""', 'a;b', '\\t', 'r\\n', 'é́', '  ', 'a\x0bb'[:1] + 'b',
                 # text that is not in Unicode normal form C (decomposed accents, marks out of canonical order, singletons) must be taken literally too
